@@ -202,9 +202,13 @@ pub fn tail(s: &str, n: usize) -> String {
     c[c.len().saturating_sub(n)..].iter().collect()
 }
 
+pub fn scenario_key(sc: &Scenario) -> u64 {
+    simcore::fsutil::hash_u64(format!("{:?}|{:?}|{}", sc.project, sc.steps, sc.seed).as_bytes())
+}
+
 /// Runs a whole history; stops at the first violation.
 pub fn run_history(sc: &Scenario, ctx: &mut RunCtx) -> Result<Option<Violation>, String> {
-    let mut w = World::new(&sc.project, "hs");
+    let mut w = World::at(&sc.project, scenario_key(sc));
     let r = run_history_in(&mut w, sc, ctx);
     *ctx.sim_ms += w.now - world::EPOCH_MS;
     r
